@@ -41,6 +41,8 @@ RP == Boxed(<<Ch(97), ParErr(98), Ch(99)>>)                  \* "a?c" with a par
 \* a colour code that repeats the colour in effect (with and without a size code before it): no new attributes
 RR == <<Dh, Col(6)>> \o Boxed(Word(72, 105) \o <<Col(6)>> \o Word(99, 121))
 RS == <<Col(6)>> \o Boxed(Word(72, 105) \o <<Col(6)>> \o Word(99, 121))
+\* two boxed segments on one row, text between them outside any box
+RD == Boxed(Word(76, 69)) \o <<Sp, Ch(120), Sp>> \o Boxed(Word(82, 73))
 RN == Boxed([i \in 1..13 |-> Ch(SetToSortSeq(NationalPositions, <)[i])] \o <<Ch(65)>>)
 
 Hdr(mag, pt, pu, sub, serial, cs, own) == [k |-> "hdr", mag |-> mag, pt |-> pt, pu |-> pu, sub |-> sub, serial |-> serial, cs |-> cs, erase |-> FALSE, row |-> 0, cells |-> <<>>, own |-> own, grp |-> 0, dc |-> 0]
@@ -92,7 +94,14 @@ CasesE == {[st |-> Stream(PutAfter(BaseE, i, Extra(kd, mg)), g), op |-> Opt(100,
 \* generated as the last unit of their PES (g = 1) - filtered here
 LastInPes(c) == \A i \in DOMAIN c.st.pes : \A j \in DOMAIN c.st.pes[i].units :
                    c.st.pes[i].units[j].k \in {"overlong", "cut"} => j = Len(c.st.pes[i].units)
-CasesEOK == {c \in CasesE : LastInPes(c)}
+\* PES packets of the teletext PID that carry other VBI data (data identifier outside the EBU teletext range) before
+\* the first and after the last teletext packet: they hold no text, but the stream's first and last presentation time
+\* are theirs
+NonEbu(i) == [pts |-> i * 90000, pid |-> 0, units |-> <<Extra("nonebu", 1)>>]
+Later(ps, k) == [i \in DOMAIN ps |-> [ps[i] EXCEPT !.pts = @ + k * 90000]]
+CasesV == {[st |-> [Stream(BaseE, g) EXCEPT !.pes = pre \o Later(@, 2) \o post], op |-> Opt(100, 0)] :
+             g \in {1, 2}, pre \in {<<>>, <<NonEbu(0)>>}, post \in {<<>>, <<NonEbu(20)>>}}
+CasesEOK == {c \in CasesE : LastInPes(c)} \cup CasesV
 
 \* A: auto detection of page and PID; other PIDs
 OtherPid(pid, i) == [pts |-> i * 90000 + 45000, pid |-> pid, units |-> T(IF pid = 1 THEN 10 + i ELSE 0, TRUE, 0, <<<<20, RC>>>>)]
@@ -108,7 +117,7 @@ CasesH == {[st |-> Stream(THex(1, 2, 5, <<<<20, RA>>>>) \o THex(0, 1, 15, <<<<20
 
 \* C: character sets and row contents
 CasesC == {[st |-> Stream(T(1, TRUE, cs, <<<<20, RN>>, <<21, r>>>>) \o T(2, TRUE, cs2, <<<<20, RN>>>>) \o T(3, TRUE, 0, <<>>), 3), op |-> Opt(100, 0)] :
-             cs \in 0..6, cs2 \in {0, 1, 4}, r \in {RA, RB, RX, RU, RP, RR, RS}}
+             cs \in 0..6, cs2 \in {0, 1, 4}, r \in {RA, RB, RX, RU, RP, RR, RS, RD}}
 
 \* I: instance schedules - every sequence of 4 instances of the target page, each empty (erase page / repeated
 \* header) or carrying one of two rows, x 1..3 units per PES: an empty instance before, between and after the
